@@ -3,7 +3,7 @@ import modelx as mx
 from modelx.core.errors import FormulaError
 from . import machine, gen, grammar, probe, refmodel as rm, history
 from .props.base import Violation
-from .world import norm, objpath
+from .world import norm, objpath, library_self_check
 
 KINDS = ["ValueError", "ZeroDivisionError", "KeyError", "InjectedError", "MemoryError", "RecursionError",
          "KeyboardInterrupt"]
@@ -206,9 +206,7 @@ class Scenario:
                                 dict(desc, extra=extra[:5], missing=missing[:5]))
             ctx.count("retries_checked", 1, "reach")
             self.state(ev, desc, kind, "after-retry")
-            try:
-                m._impl._check_sanity()
-            except AssertionError as e:
+            if isinstance(library_self_check(getattr(m, "_impl", None)), AssertionError):
                 raise Violation("%s/sanity-check-failed/%s" % (self.pid, kind), desc)
             sysm = mx.core.mxsys
             if sysm.callstack or sysm.refstack or sysm.executor.is_executing:
